@@ -141,6 +141,7 @@ def parseTop (toks : List String) : Option STop :=
   | ["gc"] => some .gc
   | ["poll"] => some .poll
   | ["frameend"] => some .frameEnd
+  | ["update"] => some .frameEnd          -- `App::update()`: the `Last` schedule runs the collector, then the poll
   | ["wsysevent", s, ty, pid] => do pure (.wSysEvent (← parseRef s) (← ty.toNat?) (← pid.toNat?))
   | ["wbroadcast", ty, pid] => do pure (.wBroadcast (← ty.toNat?) (← pid.toNat?))
   | ["wentevent", r, ty, pid] => do pure (.wEntityEvent (← parseRef r) (← ty.toNat?) (← pid.toNat?))
